@@ -56,6 +56,28 @@ def lib_format(lib, text_bytes, tmp, n):
     return oc, site, ret
 
 
+def lib_session(lib, texts, tmp, n):
+    """the calls of ONE library process, in order -> [(outcome, site, ret)] (a call the process did not survive is the
+    dead one, the calls after it are not made)"""
+    paths = []
+    for k, t in enumerate(texts):
+        p = os.path.join(tmp, "libses%d_%d.bin" % (n, k))
+        write(p, t)
+        paths.append(p)
+    r = run([sys.executable, os.path.join(HERE, "libcall.py"), lib] + paths, timeout=150 + 10 * len(paths))
+    oc, site = outcome_of(r)
+    rets = []
+    for line in r.stdout.strip().splitlines():
+        try:
+            rets.append(json.loads(line)["ret"])
+        except (ValueError, KeyError):
+            break
+    out = [("ok", "", x) for x in rets[:len(texts)]]
+    if len(out) < len(texts):
+        out.append((oc if oc != "ok" else "abort", site or "no-result rc=%s" % r.returncode, None))
+    return out
+
+
 def lib_reference(drv, text, tmp, n):
     """the library result through the overlay driver (in-process parser.FormatPacketDsl)"""
     p = os.path.join(tmp, "ref%d.dsl" % n)
@@ -116,7 +138,7 @@ class Runner:
                 "lib_panic": bool(ref.get("panic")),
                 "gens": gens or {"none": {"none": ""}}}
 
-    def call(self, op, text, langs=(), dirshape="rel", gens=None):
+    def call(self, op, text, langs=(), dirshape="rel", gens=None, libres=None):
         n = self.nxt()
         wd = os.path.join(self.tmp, "w%d" % n)
         os.makedirs(wd)
@@ -138,7 +160,8 @@ class Runner:
             e["after"] = open(p, encoding="utf-8", errors="surrogateescape").read() if os.path.exists(p) else "<deleted>"
             e["elsewhere"] = sorted(x for x in os.listdir(wd) if x != "in.dsl")
         elif op == "lib":
-            oc, site, ret = lib_format(self.lib, text.encode("utf-8", "surrogateescape"), self.tmp, n)
+            # libres: the answer this call got inside a longer-lived library process (lib_session)
+            oc, site, ret = libres if libres is not None else lib_format(self.lib, text.encode("utf-8", "surrogateescape"), self.tmp, n)
             e["outcome"] = oc
             e["ret"] = ret if ret is not None else ""
         else:
@@ -235,6 +258,10 @@ def mc_entry(rep):
     if "StdoutExact" not in s.violated:
         raise Infra("Entry.tla with DebugPrintArgc does not violate StdoutExact")
     rep.cov["spec_sensitivity"] = {"DebugPrintArgc": s.violated}
+    s = tlc.run_tlc("Entry", open(os.path.join(tlc.SPEC, "Entry.cfg")).read().replace("LibMemo = FALSE", "LibMemo = TRUE"), workers=4, timeout=300)
+    if "LibIsResult" not in s.violated:
+        raise Infra("Entry.tla with LibMemo does not violate LibIsResult")
+    rep.cov["spec_sensitivity"]["LibMemo"] = s.violated
     hs = {}
     for t in g.testcases:
         hs[json.dumps(t, sort_keys=True)] = t
@@ -294,19 +321,38 @@ def check_c16(tier):
         extra.append(("special-relaid", dsltok.relayout(docs.SPECIAL, "fewlines", 1)))
         for label, t in extra:
             jobs.append(("fmt3", (label, t)))
+        # 4. a longer life of the loaded library: every text asked twice in a row, valid and invalid interleaved, in ONE process
+        ses = []
+        pool = [("valid1", concrete["valid1"]), ("invalid", concrete["invalid"]), ("valid2", concrete["valid2"]), ("special", concrete["special"])] + \
+               [x for x in extra if "#drop" in x[0] or "#c" in x[0]][:6]
+        for label, t in pool:
+            ses += [(label, t), (label, t)]
+        ses += [pool[0], pool[1], pool[0], pool[1]]
+        jobs.append(("libsession", ses))
 
         def one(job):
             kind, arg = job
             out = []
             if kind == "hist":
                 cur = concrete[arg["start"]]
+                # the library calls of one history are calls into ONE process (the library stays loaded)
+                libtexts = [concrete[c["text"]] for c in arg["calls"] if c["op"] == "lib"]
+                libres = lib_session(R.lib, [t.encode("utf-8", "surrogateescape") for t in libtexts], tmp, R.nxt()) if libtexts else []
+                libres += [("abort", "library process died earlier in this history", None)] * (len(libtexts) - len(libres))
                 for c in arg["calls"]:
                     t = cur if c["op"] in ("format-f", "compile-word", "compile-implicit") else concrete[c["text"]]
                     d = R.doc_event(t, c["op"].startswith("compile"))
-                    e, site = R.call(c["op"], t, langs=sorted(c["langs"]))
-                    out.append((d, e, site, "hist:%s" % "+".join(x["op"] for x in arg["calls"]), c["text"]))
+                    e, site = R.call(c["op"], t, langs=sorted(c["langs"]), libres=libres.pop(0) if c["op"] == "lib" else None)
+                    out.append((d, e, site, "hist:%s" % "+".join(x["op"] + ("(%s)" % x["text"] if x["op"] == "lib" else "") for x in arg["calls"]), c["text"]))
                     if c["op"] == "format-f" and e["outcome"] == "ok":
                         cur = e["after"]
+            elif kind == "libsession":
+                res = lib_session(R.lib, [t.encode("utf-8", "surrogateescape") for _, t in arg], tmp, R.nxt())
+                res += [("abort", "library process died earlier in this session", None)] * (len(arg) - len(res))
+                for k, ((label, t), lr) in enumerate(zip(arg, res)):
+                    d = R.doc_event(t, False)
+                    e, site = R.call("lib", t, libres=lr)
+                    out.append((d, e, site, "libsession", "%s#%d" % (label, sum(1 for x in arg[:k] if x[0] == label))))
             elif kind == "compile":
                 name, sub, word, sh = arg
                 t = concrete[name]
